@@ -42,7 +42,8 @@ Groups == 1..MaxG
 Sigs   == 1..MaxSig
 
 VARIABLES
-    par,        \* [period, create]: tss signing_period / creation_period of this history (never changes)
+    par,        \* [period, create, fx]: tss signing_period / creation_period of this history (never change); fx = amount of a
+                \* SECOND denom in fee_per_signer (0 = single-denom fee; changed by governance: SetFx)
     h, now,
     fee,        \* params.fee_per_signer (single denom)
     current,    \* current group id (0 = none)
@@ -133,6 +134,13 @@ SetFee(f) ==
     /\ fee' = f
     /\ UNCHANGED <<par, h, now, current, tr, gcount, grp, pendG, lastExpG, bm, canSign, sigc, sig, bsigc, bsig, bal, escrow, earned, out, owed>>
 
+\* environment: governance adds / removes a second denom in fee_per_signer.  Only the acceptance rule is modelled for it
+\* (the limit must cover fee x threshold in EVERY denom of the fee); its money is not tracked (payers hold plenty of it)
+SetFx(x) ==
+    /\ x # par.fx
+    /\ par' = [par EXCEPT !.fx = x]
+    /\ UNCHANGED <<h, now, fee, current, tr, gcount, grp, pendG, lastExpG, bm, canSign, sigc, sig, bsigc, bsig, bal, escrow, earned, out, owed>>
+
 SetCanSign(g, b) ==
     /\ canSign' = [canSign EXCEPT ![g] = b]
     /\ UNCHANGED <<par, h, now, fee, current, tr, gcount, grp, pendG, lastExpG, bm, sigc, sig, bsigc, bsig, bal, escrow, earned, out, owed>>
@@ -163,6 +171,7 @@ Request(p, limit, lx, S, incOK, SI) ==
     IF /\ (limit >= 1 \/ lx >= 1)
        /\ (cur # 0 \/ inc # 0)
        /\ cost <= limit
+       /\ (paid => par.fx * grp[cur].thr <= lx)
        /\ (paid => bal[p] >= cost)
        /\ (cur # 0 => canSign[cur])
        /\ (curOK \/ mkInc)
@@ -301,7 +310,8 @@ Next ==
     \/ \E g \in Groups, b \in BOOLEAN : SetCanSign(g, b)
     \/ \E ms \in MemberMenu : InstallGroup(ms, 1)
     \/ \E f \in FeeSet : SetFee(f)
-    \/ \E p \in Payer \cup {"authority"}, limit \in LimitSet, lx \in {0, 1}, incOK \in BOOLEAN :
+    \/ \E x \in {0, 1} : SetFx(x)
+    \/ \E p \in Payer \cup {"authority"}, limit \in LimitSet, lx \in {0, 2}, incOK \in BOOLEAN :
           \E S \in ComOrNone(current), SI \in ComOrNone(Incoming) : Request(p, limit, lx, S, incOK, SI)
     \/ \E id \in Sigs : SignAll(id)
     \/ \E dt \in DtSet : \E HS \in ComOrNone(current) : EndBlock(dt, HS)
